@@ -248,7 +248,14 @@ int choose(int t, vh::rng& r) {
   if (a.actions_left <= 0) return -1;  // budget used up: go to the drain phase
   if (W->spawns_left <= 0 || W->nactors >= MAXA) w[A_SPAWN] = 0;
   if (prev == 1 && a.q_since_epoch == 0) { w[A_PAUSE] += 25; w[A_EXIT] += 12; w[A_QUIESCENT] += 10; }  // I would advance the epoch by leaving
-  if (prev == 0 && count > 0) { w[A_SPAWN] *= 6; w[A_PAUSE] += 15; w[A_EXIT] += 8; }                      // epoch change in progress
+  if (prev == 0 && count > 0) {  // epoch change in progress (somebody else is the changer)
+    w[A_SPAWN] *= 6;
+    w[A_PAUSE] += 15;
+    w[A_EXIT] += 8;
+    // leaving now with requests of the previous interval races with the changer's orphan hand-over
+    if (!unodb::this_thread().previous_interval_requests_empty()) { w[A_PAUSE] += 80; w[A_EXIT] += 30; }
+    else if (!unodb::this_thread().current_interval_requests_empty()) { w[A_PAUSE] += 30; w[A_EXIT] += 10; }
+  }
   if (count <= 2) w[A_SPAWN] *= 3;
   bool any_pending = false;
   for (const auto& rc : W->recs) if (!rc.freed) any_pending = true;
@@ -617,6 +624,13 @@ int main(int argc, char** argv) {
         const auto d = rr.below(5);
         for (u64 j = 0; j < d; ++j) q.changes.push_back({-1, 1 + rr.below(250)});
         g_exec_desc = "pct d=" + std::to_string(d) + " #" + std::to_string(k);
+        if (k % 3 == 1) {
+          // preemptions aimed at the rare windows: right before orphan-list and state-word updates
+          using namespace unodb::verif;
+          const double pr = 0.05 + 0.1 * static_cast<double>(rr.below(3));
+          q.kind_demote = {{ORPHAN_XCHG, pr}, {ORPHAN_CAS, pr}, {ORPHAN_TAIL_STORE, pr}, {QSBR_STATE_CAS, pr / 2}, {QSBR_STATE_FETCH_SUB, pr / 2}};
+          g_exec_desc += " +kind-demote";
+        }
       }
       const auto e = execute(vh::case_seed(rep().seed, c, 100 + k), q, actors, spawns);
       bad = e.violated;
